@@ -52,6 +52,7 @@ SPEC_BUILTINS = {
     "clsid", "clsof", "isinst", "uf", "exact_class", "qn_str", "qn_uri", "map_dom_eq",
     "const_set", "const_map_keys", "table_get", "table_has", "field_array", "is_other",
     "seq_len", "seq_nth", "seq_empty", "seq_unit", "seq_concat", "flt_of_int", "same", "hash_str", "tbl", "canon_in", "vs_has", "vs_n", "vs_in", "vs_wf", "vs_first", "vs_rep", "ck", "qm_has", "qm_get", "qm_key", "pair", "hash_of", "vs_add", "vs_empty", "seq_has", "attr_set", "canon_set", "rkey", "rec_keys", "set_has", "uri_in", "recs_with_id", "recs_of_class", "allocated", "table_key", "seq_member_index_lemma", "is_formal", "fresh", "seq_snoc_lemma", "os_has", "os_n", "os_rep", "entry",
+    "jobj", "jplain", "is_jobj", "j_dollar", "j_plain", "j_type", "j_lang",
 }
 
 
@@ -631,6 +632,13 @@ class Exec(Sem):
                 return self.map_has(cont.data, x)
             raise Unsupported("`in` on %r" % (cont,), node)
         k = cont.ty.kind
+        if k == "jrep":
+            key = x.t.strip('"') if isinstance(x, SV) and x.ty == T.STR and x.t.startswith('"') else None
+            if key == "$":
+                return "((_ is JObj) %s)" % cont.t
+            if key in ("type", "lang"):
+                return AND("((_ is JObj) %s)" % cont.t, NOT(S.is_none(T.STR, "(j%s %s)" % (key, cont.t))))
+            raise Unsupported("`in` on a JSON representation with a non-constant key", node)
         if k == "str":
             if x.ty != T.STR:
                 raise Unsupported("`in` str with non-str", node)
@@ -718,6 +726,19 @@ class Exec(Sem):
                 return self.bi.table_lookup(o, i, st, k, ctl, node)
             raise Unsupported("subscript of %r" % (o,), node)
         ty = o.ty
+        if ty.kind == "jrep":
+            key = i.t.strip('"') if isinstance(i, SV) and i.ty == T.STR and i.t.startswith('"') else None
+            if key == "$":
+                if not st.spec:
+                    self.cx.oblige("json-key-present@%s" % line, st, "((_ is JObj) %s)" % o.t, {"kind": "safety", "expr": ast.unparse(node)})
+                return k(st, SV("(jdollar %s)" % o.t, T.VAL))
+            if key in ("type", "lang"):
+                present = AND("((_ is JObj) %s)" % o.t, NOT(S.is_none(T.STR, "(j%s %s)" % (key, o.t))))
+                if not st.spec:
+                    self.cx.oblige("json-key-present@%s" % line, st, present, {"kind": "safety", "expr": ast.unparse(node)})
+                    st = st.assume(present)
+                return k(st, SV(S.the(T.STR, "(j%s %s)" % (key, o.t)), T.STR))
+            raise Unsupported("subscript of a JSON representation with a non-constant key", node)
         if ty.kind == "opt":
             inner = ty.args[0]
             if not st.spec:
